@@ -125,6 +125,23 @@ pub fn spec(property: &str, tier: &str) -> Option<CheckSpec> {
 			sp.stub_components = vec!["the remote peer (simulator owns the other end of the socket and the fragmentation)".into(), "p2p::Protocol/Peer (the reader loop mirrors conn::poll: stop at the first error; expect_attachment after TxHashSetArchive)".into()];
 			Some(sp)
 		}
+		"C16" => {
+			let mut sp = s(
+				"pibdsim",
+				"exploration",
+				if quick { 12 } else { 48 },
+				"case = one generated chain with spends (every 4th case an 86+ block chain whose serving node is compacted first); run = one state sync of a fresh headers-only receiver from the serving node: a harness loop mirroring StateSync::continue_pibd asks the real Segmenter for the segments the real Desegmenter wants (plus the harness's own enumeration of missing segments), responses travel serialized over a simulated network that reorders, duplicates, drops (re-requested) and corrupts one element (leaf data, leaf position, pruned-subtree hash, proof hash, identifier, omitted leaf, companion root, bitmap chunk bits); segment heights 0-4 through the cfg(grin_verif) override so that 45-90 block chains need several segments per MMR; one run in six uses txhashset_read -> zip -> txhashset_write instead. Oracle: honest segments validate (once the bitmap is assembled), corrupted ones are refused by add_*_segment, assembly completes within a bounded number of fault-free rounds, and the finalized head/roots/sizes/unspent set/validate(false) equal those of a node that processed every block to the archive header; then the remaining blocks are accepted, the tip state equals the server's and a restart succeeds",
+				vec!["real blocks stay below 1024 outputs: one bitmap chunk (multi-chunk bitmap commitment is C15/txhsim)", "corruption of hashes the root does not depend on is not expected to be refused (statement); covered by the final-state clause"],
+				vec!["sync_completed", "multi_segment_sync", "corrupt_segment_refused", "zip_mode", "server_compacted"],
+			);
+			sp.real_components = vec![
+				"grin_chain Segmenter, Desegmenter (add/apply/next_desired/check_progress/validate_complete_state), txhashset_read/txhashset_write, Chain on tmpfs".into(),
+				"grin_core Segment / SegmentProof / BitmapSegment (de)serialization and validation".into(),
+			];
+			sp.stub_components = vec!["servers::StateSync loop and NetToChainAdapter::receive_*_segment (mirrored in the harness)".into(), "p2p transport (simulated: reorder/duplicate/drop/corrupt)".into()];
+			sp.case_timeout_s = 1500;
+			Some(sp)
+		}
 		"C14" => {
 			let mut sp = s(
 				"poolsim",
@@ -803,6 +820,7 @@ pub fn run_case(property: &str, tier: &str, seed: u64, case: u64) -> CaseResult 
 		"C19" => crate::wiresim::c19_case(tier, seed, case),
 		"C11" => crate::wiresim::c11_case(tier, seed, case),
 		"C14" => crate::poolsim::case(tier, seed, case),
+		"C16" => crate::pibdsim::case(tier, seed, case),
 		"C15" => {
 			if case % 3 == 2 {
 				let mut r = crate::txhsim::case(tier, seed, case);
